@@ -243,6 +243,21 @@ EmptySets(k) ==
   ELSE {}
 ClassModes == TextModes \cup BytesModes \cup PathModes \cup {"empty"}
 
+(***************************************************************************)
+(* History prefixes.  Pooling is decided by state, so obligations are also *)
+(* evaluated after a history: "subst-redeploy" = a claim c0 was observed   *)
+(* at nonce n under bridge deployment d1, the bridge was re-deployed as d2 *)
+(* (evm.ActivateChainReferenceID: skyway resets its nonces, c0's observed  *)
+(* attestation stays in the store), then the pair (a, b) re-uses nonce n:  *)
+(* a differs from c0 (deployment id, height), b differs from a in the      *)
+(* obligation's fields.  Votes for a and b must each sit on an attestation *)
+(* whose stored body is exactly their claim, never on c0's.                *)
+(* The legacy claim type has no deployment id and is never tallied once a  *)
+(* deployment id is recorded.                                              *)
+(***************************************************************************)
+RedeployKinds == KindsC11 \ {"MsgBatchSendToEthClaim"}
+RedeploySets(k) == IF k \in RedeployKinds THEN {{x} : x \in Required(k)} \cup {Required(k)} ELSE {}
+
 -----------------------------------------------------------------------------
 (* Obligations *)
 SubstSets(k) == {F \in SUBSET Required(k) : F # {} /\ Cardinality(F) <= 2} \cup ({Required(k)} \ {{}})
@@ -258,6 +273,7 @@ OblOf(f) ==
      \* both values of a "dslash" pair contain a '/': only meaningful where such a value is admitted at all
   \cup UNION {{[kind |-> k, fields |-> {x}, mode |-> "dslash"] : x \in PathFields(k) \cap FreeText(k)} : k \in KindsOf(f)}
   \cup UNION {{[kind |-> k, fields |-> F, mode |-> "empty"] : F \in EmptySets(k)} : k \in KindsOf(f)}
+  \cup UNION {{[kind |-> k, fields |-> F, mode |-> "subst-redeploy"] : F \in RedeploySets(k)} : k \in KindsOf(f)}
   \cup (IF f = "C04" THEN {[kind |-> "ProofType", fields |-> P, mode |-> "cross"] : P \in CrossPairs} ELSE {})
 
 Obl == UNION {OblOf(f) : f \in Families}
@@ -279,7 +295,7 @@ NoObl == [kind |-> "-", fields |-> {}, mode |-> "none"]
 Delimited(k) == TRUE
 TypeTagged   == TRUE
 Binds(o) ==
-  CASE o.mode = "subst" -> o.fields \cap Bound(o.kind) # {}
+  CASE o.mode \in {"subst", "subst-redeploy"} -> o.fields \cap Bound(o.kind) # {}   \* (history does not change what the digest covers)
     [] o.mode = "shift" -> o.fields \subseteq Bound(o.kind) /\ Delimited(o.kind)
     [] o.mode = "cross" -> TypeTagged
     [] o.mode \in ClassModes -> o.fields \subseteq Bound(o.kind) /\ Delimited(o.kind)  \* the digest covers the raw values, unnormalised, in full, each in its place
@@ -316,7 +332,7 @@ TableOK ==
 C11AllFields == \A k \in KindsC11 : Required(k) = Fields(k) \ Excluded(k)
 
 \* every required field is bound, alone and in combination; every boundary is delimited
-Binding == cur.mode \in {"subst", "shift", "cross"} \cup ClassModes => Binds(cur)
+Binding == cur.mode \in {"subst", "subst-redeploy", "shift", "cross"} \cup ClassModes => Binds(cur)
 AllBind == \A o \in Obl : Binds(o)
 
 TypeOK == cur = NoObl \/ cur \in Obl \/ \E f \in Families : cur = SurveyOf(f)
